@@ -41,6 +41,7 @@ type world struct {
 	bad    string
 	seed   int
 	client *http.Client
+	spec   map[int]M // slot -> collection part of the request that created its task (for c_dup)
 }
 
 func h32(s string) int {
@@ -340,14 +341,78 @@ func (w *world) build(class string, slot int, seed int) request {
 		})
 	case "c_badrpcpos": // undecodable position of the replicate-message channel
 		return invalid(func(_, d M) { d["rpc_channel_info"] = M{"name": srvenv.ReplicateChan, "position": "!!!not-base64"} })
-	case "c_dup": // names the collection of an existing task of the same target
-		return invalid(func(_, d M) { d["collection_infos"] = []interface{}{M{"name": coll}} })
-	case "c_badconn": // nothing listens on the target address
+	case "c_dup": // asks again for exactly what the existing task of the slot replicates
 		return invalid(func(_, d M) {
+			delete(d, "collection_infos")
+			delete(d, "milvus_connect_param")
+			for k, v := range w.spec[slot] {
+				d[k] = v
+			}
+		})
+	case "c_dotmap": // a name mapping whose source names contain the separator of the internal full name (outcome left open)
+		r := invalid(func(_, d M) {
+			n := dotted(seed)
+			if seed%2 == 0 {
+				d["name_mapping"] = []interface{}{M{"source_db": "default", "target_db": "t", "collection_mapping": M{n: "x"}}}
+			} else {
+				d["name_mapping"] = []interface{}{M{"source_db": n, "target_db": "t", "collection_mapping": M{"coll_bad": "x"}}}
+			}
+		})
+		r.mustReject = false
+		return r
+	case "c_badconn": // nothing listens on the target address (directed plans only: costs the connect timeout; outcome left open)
+		r := invalid(func(_, d M) {
 			d["milvus_connect_param"] = M{"uri": w.bad, "token": "root:Milvus", "connect_timeout": 1}
 		})
+		r.mustReject = false
+		return r
+	case "create_kafka": // valid create for a Kafka target (directed plans only: every such create leaks a librdkafka producer)
+		req, data := w.baseCreate(id, coll)
+		delete(data, "milvus_connect_param")
+		data["kafka_connect_param"] = M{"address": "127.0.0.1:1", "topic": "cdc"}
+		return post(req)
 	}
 	panic("unknown request class " + class)
+}
+
+// remember keeps the collection part of an accepted create of a slot, without positions
+func (w *world) remember(class string, slot int, r request, a answer) {
+	if !strings.HasPrefix(class, "create") || a.broken || !bytes.Contains(a.raw, []byte(`"code":200`)) {
+		return
+	}
+	var req struct {
+		Data M `json:"request_data"`
+	}
+	if json.Unmarshal(r.body, &req) != nil {
+		return
+	}
+	spec := M{}
+	strip := func(v interface{}) interface{} {
+		l, _ := v.([]interface{})
+		out := []interface{}{}
+		for _, x := range l {
+			if m, ok := x.(map[string]interface{}); ok {
+				out = append(out, M{"name": m["name"]})
+			}
+		}
+		return out
+	}
+	for _, k := range []string{"milvus_connect_param", "kafka_connect_param"} {
+		if v, ok := req.Data[k]; ok {
+			spec[k] = v
+		}
+	}
+	if v, ok := req.Data["collection_infos"]; ok {
+		spec["collection_infos"] = strip(v)
+	}
+	if v, ok := req.Data["db_collections"].(map[string]interface{}); ok {
+		dbc := M{}
+		for db, l := range v {
+			dbc[db] = strip(l)
+		}
+		spec["db_collections"] = dbc
+	}
+	w.spec[slot] = spec
 }
 
 type answer struct {
@@ -458,7 +523,7 @@ func (w *world) observe(ev hx.Event) {
 
 func run(p *hx.Plan) []hx.Event {
 	good, bad := srvenv.MilvusURIs()
-	w := &world{env: srvenv.New(100), good: good, bad: bad, seed: int(hx.Seed())}
+	w := &world{env: srvenv.New(100), good: good, bad: bad, seed: int(hx.Seed()), spec: map[int]M{}}
 	w.srv = httptest.NewServer(w.env.Handler())
 	w.srv.Config.ErrorLog = nil
 	tr := &http.Transport{DisableKeepAlives: true}
@@ -469,7 +534,7 @@ func run(p *hx.Plan) []hx.Event {
 		w.env.Close()
 	}()
 	var evs []hx.Event
-	init := hx.Event{"op": "init", "slot": 0, "method": "", "broken": false, "json_ok": true, "code": 0, "http": 0,
+	init := hx.Event{"op": "init", "i": 1, "n": len(p.Steps) + 1, "slot": 0, "method": "", "broken": false, "json_ok": true, "code": 0, "http": 0,
 		"has_msg": false, "has_data": false, "must_reject": false, "body": "", "answer": "", "err": ""}
 	w.observe(init)
 	evs = append(evs, init)
@@ -481,7 +546,8 @@ func run(p *hx.Plan) []hx.Event {
 		}
 		r := w.build(class, slot, seed)
 		a := w.send(r)
-		ev := hx.Event{"op": class, "slot": slot, "method": r.method, "broken": a.broken, "http": a.status, "err": a.errText,
+		w.remember(class, slot, r, a)
+		ev := hx.Event{"op": class, "i": i + 2, "n": len(p.Steps) + 1, "slot": slot, "method": r.method, "broken": a.broken, "http": a.status, "err": a.errText,
 			"must_reject": r.mustReject, "draw": seed}
 		if len(r.body) <= 600 {
 			ev["body"] = base64.StdEncoding.EncodeToString(r.body)
